@@ -167,7 +167,7 @@ def oracle(h):
 def run(replay=None):
     ck = Check("C12", "proof")
     ck.assumptions = [
-        "each target is used through one builder; instructions (Apply/Return/When) go through the latest handle of a target, stale handles only Cancel (a Return through a cancelled mocker's stale handle while a newer mocker is live is outside the property's domain)",
+        "domain of the whole-history theorem and of the generator (Proofs/MockerHistory.ok): each target is used through one builder; Apply/Return/When/Cancel go through a handle of the target's CURRENT mocker (a handle of a mocker that was cancelled and then superseded by a newer lookup is stale and outside the property)",
         "targets: two functions, a third function and a pointer-receiver method, all func(int) int; stub configurations are Return(r) and When(v).Return(r)",
     ]
     ok, failed, log = ck.prove(["Props/C12.vo"], label="Props/C12")
